@@ -25,6 +25,22 @@ RESERVED_PROPERTIES = (
 )
 
 
+def _is_docstring(description: Any) -> bool:
+    """Whether a description reads back unchanged from a plain docstring.
+
+    Other descriptions are declared with the ``description`` class argument.
+    """
+    return (
+        isinstance(description, str)
+        and bool(description)
+        and "\\" not in description
+        and '"""' not in description
+        and not description.endswith('"')
+        and "\r" not in description
+        and "\0" not in description
+    )
+
+
 class ObjectClassDict(dict):
     """Overriden class dictionary for the metaclass of Object.
 
@@ -172,15 +188,13 @@ class ObjectMeta(type, Element):
             if (
                 value == param.default
                 or (param.name == "additionalProperties" and value is True)
-                or param.name == "description"
+                or (param.name == "description" and _is_docstring(value))
             ):
                 continue
             cls_args.append(f"{param.name}={repr(value)}")
         class_def = f"""class {repr(cls)}({', '.join(cls_args)}):
 """
-        if not cls.description is None and not isinstance(
-            cls.description, NotPassed
-        ):
+        if _is_docstring(cls.description):
             class_def += f'    """{cls.description}"""\n'
         if not cls.properties:
             class_def = (
